@@ -428,6 +428,7 @@ def monitor(c, o):
         if ev[0] == "NR" and IFS[ev[3]][2]:
             p, nh, i = ev[1], ev[2], ev[3]
             nh_ifaces.setdefault(nh, set()).add(i)
+            deleted_pending.discard((i, p, nh))      # the kernel has it again
             if nh not in k.neigh:
                 w = waiting.setdefault(nh, [])
                 overwritten.update(w)
@@ -471,7 +472,8 @@ def monitor(c, o):
                     dst, _, rest = call[2].partition("/")
                     ln = rest.split(">")[0]
                     pid = PFX_ID.get((dst, int(ln))) if ln.isdigit() else None
-                    if pid is not None and (IF_ID[call[1][:-6]], pid, ev[1]) in deleted_pending:
+                    if pid is not None and (IF_ID[call[1][:-6]], pid, ev[1]) in deleted_pending \
+                            and k.routes.get(pid) != (ev[1], IF_ID[call[1][:-6]]):
                         stale_adds.add((IF_ID[call[1][:-6]], pid))
         installed = {}        # prefix -> gate for kernel routes present in their interface's table
         # mirror, completeness: kernel route with known MAC => installed
